@@ -25,3 +25,7 @@ func TestC16(t *testing.T) {
 func TestC17(t *testing.T) {
 	sim.Main(t, sim.Spec{Property: "C17", Engine: "E3-tasks", Run: RunSeeder})
 }
+
+func TestC18(t *testing.T) {
+	sim.Main(t, sim.Spec{Property: "C18", Engine: "E3-tasks", Run: RunLeechers})
+}
